@@ -2,8 +2,10 @@
      (cmp a b <int> [<eq> <ne> <lt> <le> <gt> <ge>])   gojq.Compare(a, b) and, optionally, the six operators
                                               $a==$b, !=, <, <=, >, >= (each true|false)
      (sort A R) (unique A R) (min A R) (max A R)
-     (sort_by P R) (group_by P R) (unique_by P R) (min_by P R) (max_by P R)   P = array of [value, key] pairs,
-                                              the query is f(.[1]), so the builtin sees the key [k]
+     (sort_by A KS F R) (group_by ..) (unique_by ..) (min_by ..) (max_by ..)   the query is b(f) on A with f = the
+                                              source text F (a string, kept for replay); KS = [[f outputs of A[0]], ...],
+                                              i.e. exactly what builtin.jq's `map([f])` hands to _sort_by: the key of an
+                                              element is the ARRAY of all outputs of f (0, 1, 2, ... of them)
      (bsearch A t R) (sub A B R) (indices A x R) (index A x R) (rindex A x R)
      (keys V R) (iter V R)                    keys, [.[]]
      (jsonkeys V R)                           R = the output of tojson / gojq.Marshal parsed back keeping the
@@ -210,12 +212,12 @@ Definition vopt_nat (o : option nat) : value := match o with Some n => vnat n | 
 (* ---------- running the builtins on decoded values ---------- *)
 Definition as_arr (v : value) : option (list value) := match v with VArr l => Some l | _ => None end.
 Definition self_items (l : list value) : list (value * value) := map (fun x => (x, x)) l.
-(* f(.[1]) on [v, k] pairs: builtin.jq `def sort_by(f): _sort_by(map([f]))`: the key is the array [k] *)
-Fixpoint pair_items (l : list value) : option (list (value * value)) :=
-  match l with
-  | [] => Some []
-  | (VArr [v; k]) as p :: r => option_map (cons (p, VArr [k])) (pair_items r)
-  | _ => None
+(* builtin.jq `def sort_by(f): _sort_by(map([f]))`: the key of A[i] is the array KS[i] of f's outputs *)
+Fixpoint zip_items (l ks : list value) : option (list (value * value)) :=
+  match l, ks with
+  | [], [] => Some []
+  | v :: l', k :: ks' => option_map (cons (v, k)) (zip_items l' ks')
+  | _, _ => None
   end.
 
 Section Judge.
@@ -242,10 +244,8 @@ Section Judge.
     else if atom_is "jsonkeys" k then expect a r
     else match as_arr a with
          | Some l =>
-             match (if is_by k then pair_items l else Some (self_items l)) with
-             | Some items => match run_items k items with Some want => expect want r | None => A "undecodable" end
-             | None => A "undecodable"
-             end
+             if is_by k then A "undecodable"
+             else match run_items k (self_items l) with Some want => expect want r | None => A "undecodable" end
          | None => A "undecodable"
          end.
 
@@ -260,6 +260,16 @@ Section Judge.
         else if atom_is "rindex" k then expect (vopt_nat (index_last cmp l (needle b))) r
         else A "undecodable"
     | None => A "undecodable"
+    end.
+
+  Definition run_by (k : sexp) (a ks r : value) : sexp :=
+    match as_arr a, as_arr ks with
+    | Some l, Some kl =>
+        match zip_items l kl with
+        | Some items => match run_items k items with Some want => expect want r | None => A "undecodable" end
+        | None => A "undecodable"
+        end
+    | _, _ => A "undecodable"
     end.
 
   Definition ops_expected (a b : value) : list bool :=
@@ -310,6 +320,13 @@ Definition run_with (cmp : value -> value -> comparison) (e : sexp) : sexp :=
                     | Some _, Some _, None => A "bad-result"
                     | _, _, _ => A "undecodable"
                     end
+           | [_; c] => if is_by k then
+                         match dec_input a, dec_input b, dec_value c with
+                         | Some x, Some y, Some r => run_by cmp k x y r
+                         | Some _, Some _, None => A "bad-result"
+                         | _, _, _ => A "undecodable"
+                         end
+                       else A "undecodable"
            | _ => A "undecodable"
            end
   | _ => A "undecodable"
